@@ -287,6 +287,10 @@ func (w *inotify) register(path string, flags uint32, recurse bool) error {
 			}, nil
 		}
 
+		// The path now refers to a different file than the one we were
+		// watching (which may still exist under another name, or be held open):
+		// release the kernel watch on the old file before moving the entry.
+		unix.InotifyRmWatch(w.fd, existing.wd)
 		existing.wd = uint32(wd)
 		existing.flags = flags
 		return existing, nil
